@@ -191,7 +191,26 @@ pub fn request_range_extension<Node>(
         }
     }
 
-    nodes_tracker.inner.extend(response.changed);
+    // The right worker can still hold an entry which only records the deletion of the node a
+    // separator used to denote, while this worker has already inserted a new node under the same
+    // separator. The two are merged, the inserted node must not be lost.
+    for (key, incoming) in response.changed {
+        match nodes_tracker.inner.entry(key) {
+            std::collections::btree_map::Entry::Vacant(vacant) => {
+                vacant.insert(incoming);
+            }
+            std::collections::btree_map::Entry::Occupied(mut occupied) => {
+                let existing = occupied.get_mut();
+                if existing.deleted.is_none() {
+                    existing.deleted = incoming.deleted;
+                }
+                if existing.inserted.is_none() {
+                    existing.inserted = incoming.inserted;
+                    existing.next_separator = incoming.next_separator;
+                }
+            }
+        }
+    }
 
     if let Some(new_right_neighbor) = response.new_right_neighbor {
         worker_params.right_neighbor = new_right_neighbor;
